@@ -3,7 +3,7 @@
 /verif/seeded/*/meta.json and /verif/selfmut/results.json."""
 import json, glob, os, re
 NOTES = {
-  'C20-m4': 'the check contract registers no view function named `default` and no context sends a transaction with an empty function name; produced in the last minutes of the budget, extension described in 11.4',
+  'C20-m4': 'masked in this substrate: the scenario added for it (a `default` function registered as a view, reached by a CALL that names no function) runs, but the write is still refused with "set not permitted in query" because the view wrapper that `abi.register_view` puts around the function (shim re-implementation of the fork abi module, DESIGN 2.1) raises the same counter the executor would have raised; same masking as C20-nestedview-not-counted',
   'C06-m4': 'reorders operations inside one bulk; C06 takes a flushed bulk as atomic (stated limit of the crash model)',
  'C13-m1': 'not reachable through the component: fetch, removal and block notification all run on the single mempool actor goroutine, puts take the list lock; only direct calls of unexported methods from several goroutines (the demo) expose it',
  'C03-no-rollback-on-rejected-tx': 'no observable difference found: state is staged into the block state only on success, and run-time failures are rolled back inside executeTx (fix 6)',
